@@ -297,12 +297,18 @@ func (jenny RawTypes) generateFromJSONMethod(context languages.Context, object a
 	// optional properties that the constructor sets (constants, defaults): absent from
 	// the document, they have to be absent from the loaded object too.
 	var setByConstructor []ast.StructField
+	// nullable properties with a default: the constructor takes None for "not given" and
+	// sets the default, an explicit null in the document has to stay a null.
+	var defaultedNullables []ast.StructField
 	for _, field := range object.Type.AsStruct().Fields {
 		value := fmt.Sprintf(`data["%s"]`, field.Name)
 		setup := ""
 
 		if !field.Required && (field.Type.IsConcreteScalar() || field.Type.IsConstantRef() || field.Type.Default != nil) {
 			setByConstructor = append(setByConstructor, field)
+		}
+		if field.Type.Nullable && field.Type.Default != nil && !field.Type.IsConcreteScalar() && !field.Type.IsConstantRef() {
+			defaultedNullables = append(defaultedNullables, field)
 		}
 
 		// No need to unmarshal constant scalar fields since they're set in
@@ -340,7 +346,7 @@ func (jenny RawTypes) generateFromJSONMethod(context languages.Context, object a
 		buffer.WriteString("        \n\n")
 	}
 
-	if len(setByConstructor) == 0 {
+	if len(setByConstructor) == 0 && len(defaultedNullables) == 0 {
 		buffer.WriteString("        return cls(**args)")
 
 		return buffer.String(), nil
@@ -349,6 +355,9 @@ func (jenny RawTypes) generateFromJSONMethod(context languages.Context, object a
 	buffer.WriteString("        loaded = cls(**args)\n")
 	for _, field := range setByConstructor {
 		buffer.WriteString(fmt.Sprintf("        if \"%s\" not in data:\n            loaded.%s = None  # type: ignore[assignment]\n", field.Name, formatIdentifier(field.Name)))
+	}
+	for _, field := range defaultedNullables {
+		buffer.WriteString(fmt.Sprintf("        if \"%s\" in data and data[\"%s\"] is None:\n            loaded.%s = None  # type: ignore[assignment]\n", field.Name, field.Name, formatIdentifier(field.Name)))
 	}
 	buffer.WriteString("\n        return loaded")
 
